@@ -817,6 +817,38 @@ func (e *env) genGenerated(r *rand.Rand) input {
 	}
 	g := spec.NewGen(r, prof)
 	prog := g.FullProgram(1 + r.IntN(4))
+	// one in six: a text, movement or mart statement is named like a label the compiler derives for ANOTHER
+	// construct (an inline map script or its table, a script's sub-label, a hoisted text or movement). Whether such
+	// a file is accepted is not judged here; whatever error comes back must still carry a range inside the input
+	collide := ""
+	if r.IntN(6) == 0 {
+		var derived []string
+		for _, it := range prog.Items {
+			switch x := it.(type) {
+			case *spec.MapScripts:
+				for _, en := range x.Entries {
+					derived = append(derived, x.Name+"_"+en.Type, fmt.Sprintf("%s_%s_%d", x.Name, en.Type, r.IntN(3)), x.Name+"_"+en.Type+"_Text_0")
+				}
+			case *spec.Script:
+				derived = append(derived, fmt.Sprintf("%s_%d", x.Name, 1+r.IntN(4)), fmt.Sprintf("%s_Text_%d", x.Name, r.IntN(2)), fmt.Sprintf("%s_Movement_%d", x.Name, r.IntN(2)))
+			}
+		}
+		var victims []*string
+		for _, it := range prog.Items {
+			switch x := it.(type) {
+			case *spec.TextItem:
+				victims = append(victims, &x.Name)
+			case *spec.MovementItem:
+				victims = append(victims, &x.Name)
+			case *spec.MartItem:
+				victims = append(victims, &x.Name)
+			}
+		}
+		if len(derived) > 0 && len(victims) > 0 {
+			collide = derived[r.IntN(len(derived))]
+			*victims[r.IntN(len(victims))] = collide
+		}
+	}
 	pr := spec.Print(prog)
 	pr.Layout(spec.LayoutOpts{Scramble: r.IntN(4) == 0, CRLF: r.IntN(8) == 0, R: r})
 	cfg := parser.CommandConfig{AutoVarCommands: map[string]parser.AutoVarCommand{}}
@@ -828,7 +860,9 @@ func (e *env) genGenerated(r *rand.Rand) input {
 		}
 	}
 	in := input{src: pr.Src, note: "generated valid program", lintMustAccept: true}
-	if _, rerr := spec.Resolve(prog, prog.Switches); rerr != nil || spec.AnyUnmatched(prog, prog.Switches) {
+	if collide != "" {
+		in.note, in.lintMustAccept = "generated program with a statement named like the derived label "+collide, false
+	} else if _, rerr := spec.Resolve(prog, prog.Switches); rerr != nil || spec.AnyUnmatched(prog, prog.Switches) {
 		in.expectReject = "no poryswitch case found"
 	} else {
 		in.expectAccept = true
